@@ -137,10 +137,17 @@ def check_sel(prog: Program, res: Result) -> None:
     le = astq.loop_elems(loops[0], dec.node) if len(loops) == 1 else None
     ok = le is not None and norm(le.seq) == "self.decoder_stack"
     res.ob(R, ok, dec.qualname, "one pass over decoder_stack in order", "Decoder.forward does not run the blocks once in stack order", dec.where)
+    rets = [r for r in walk_function(dec.node) if isinstance(r, ast.Return) and r.value is not None]
+    rec = astq.record_fields(dec.node, rets[0].value) if len(rets) == 1 else None
+    # the list returned under "outputs": a local list, or the list stored in the record itself (outputs["outputs"])
+    lname = None
+    if rec is not None and "outputs" in rec:
+        v = rec["outputs"]
+        lname = v.id if isinstance(v, ast.Name) else (f"{norm(rets[0].value)}['outputs']" if isinstance(v, ast.List) and not v.elts and isinstance(rets[0].value, ast.Name) else None)
     if ok:
         lp = loops[0]
         apps = [c for s in lp.body for c in ast.walk(s) if isinstance(c, ast.Call) and isinstance(c.func, ast.Attribute) and c.func.attr == "append"]
-        ok = len(apps) == 1 and astq_stmt(apps[0]) in lp.body and norm(apps[0].func.value) == "outputs['outputs']" and isinstance(apps[0].args[0], ast.Name)
+        ok = len(apps) == 1 and astq_stmt(apps[0]) in lp.body and lname is not None and norm(apps[0].func.value) == lname and isinstance(apps[0].args[0], ast.Name)
         res.ob(R, ok, dec.qualname, "one output recorded per block", "Decoder.forward does not record exactly one output per block", dec.where)
         if ok:
             xn = apps[0].args[0].id
@@ -148,8 +155,7 @@ def check_sel(prog: Program, res: Result) -> None:
             binds = [s_ for s_ in ast.walk(lp) if isinstance(s_, ast.Assign) and norm(s_.targets[0]) == xn]
             okb = bool(binds) and all(isinstance(b.value, ast.Call) and le.is_elem(b.value.func) and b.value.args and norm(b.value.args[0]) == xn for b in binds)
             res.ob(R, okb, dec.qualname, "block i is applied to the running tensor", "the running tensor is not updated by the current block of the stack", dec.where)
-    st = [s for s in walk_function(dec.node) if isinstance(s, ast.Assign) and norm(s.targets[0]) == "outputs['strides']"]
-    res.ob(R, len(st) == 1 and norm(st[0].value) == "self.current_strides", dec.qualname, "strides returned are current_strides",
+    res.ob(R, rec is not None and "strides" in rec and norm(rec["strides"]) == "self.current_strides", dec.qualname, "strides returned are current_strides",
            "Decoder.forward does not return self.current_strides alongside the outputs", dec.where)
     for q in ("sleap_nn.architectures.unet:UNet", "sleap_nn.architectures.convnext:ConvNextWrapper", "sleap_nn.architectures.swint:SwinTWrapper"):
         f = prog.cls(q).methods.get("forward")
@@ -471,6 +477,7 @@ def check_chain(prog: Program, res: Result) -> None:
             backbone's own output_stride."""
     R = "C14-chain"
     n_conv = 0
+    conv_fns = set()
     for mod in ("sleap_nn.architectures.encoder_decoder", "sleap_nn.architectures.unet"):
         for fi in prog.all_functions():
             if fi.module.name != mod:
@@ -491,11 +498,13 @@ def check_chain(prog: Program, res: Result) -> None:
                 if not is_width:
                     continue
                 n_conv += 1
+                conv_fns.add(fi.qualname)
                 res.touch(fi)
                 res.ob(R, kinds == ["int"], fi.qualname, f"width by truncation: {short(c, 50)}",
                        f"`{short(c, 70)}` converts the width with {'('.join(kinds)}(...) while the other layers truncate with int(...): for a non-integral filters_rate the two "
                        "sides of a connection disagree by one channel and the forward pass raises", f"{fi.module.relpath}:{c.lineno}")
-    res.ob(R, n_conv >= 8, "sleap_nn.architectures", "width computations found", f"only {n_conv} width computations found", "")
+    # vacuity guard only: the number of sites changes when equal computations are hoisted or shared (10 on the pinned tree)
+    res.ob(R, n_conv >= 3 and len(conv_fns) >= 2, "sleap_nn.architectures", "width computations found", f"only {n_conv} width computations in {len(conv_fns)} functions found", "")
     # (prev)
     enc = prog.cls("sleap_nn.architectures.encoder_decoder:Encoder").methods["__init__"]
     res.touch(enc)
